@@ -52,7 +52,12 @@ def ofInt (i : Int) : α := if i ≥ 0 then Num.ofNat i.toNat else -(Num.ofNat (
 /-- `jdays2000` as numpy computes it: float(ticks) / float(ticks per day) -/
 def jdays2000 (u : Unit) (ticks : Int) : α :=
   let (n, dn) := jd2000Ticks u ticks
-  (ofInt n : α) / (ofInt dn : α)
+  match u with
+  | .ns =>
+    -- `_days` splits nanosecond tick counts: whole microseconds (floor) and the sub-microsecond remainder
+    let whole := n / 1000
+    (ofInt whole : α) / (ofInt 86400000000 : α) + (ofInt (n - whole * 1000) : α) / (ofInt dn : α)
+  | _ => (ofInt n : α) / (ofInt dn : α)
 
 /-- minutes since epoch: `(dt2np(t) - t_0) / np.timedelta64(1, "m")`, epoch held in µs -/
 def tsinceMinutes (u : Unit) (ticks : Int) (epochUs : Int) : α :=
